@@ -117,12 +117,17 @@ type dagOp struct {
 
 func dagThread(op dagOp, d *syncutils.DAGMutex[string], mon *monitor) func() {
 	if op.write {
+		// several ids: nested write locks taken one after the other in the given (acyclic) order
 		return func() {
-			d.Lock(op.ids[0])
-			mon.enterW(op.ids[0])
+			for _, id := range op.ids {
+				d.Lock(id)
+				mon.enterW(id)
+			}
 			vrt.Yield()
-			mon.exitW(op.ids[0])
-			d.Unlock(op.ids[0])
+			for i := len(op.ids) - 1; i >= 0; i-- {
+				mon.exitW(op.ids[i])
+				d.Unlock(op.ids[i])
+			}
 		}
 	}
 	return func() {
@@ -494,7 +499,7 @@ func main() {
 		}
 	}
 	A, B, C := "A", "B", "C"
-	wr := func(id string) dagOp { return dagOp{true, []string{id}} }
+	wr := func(ids ...string) dagOp { return dagOp{true, ids} }
 	rd := func(ids ...string) dagOp { return dagOp{false, ids} }
 	scs = append(scs,
 		dagScenario("LA_LA", false, wr(A), wr(A)),
@@ -502,6 +507,10 @@ func main() {
 		dagScenario("LA_RAB_LB", false, wr(A), rd(A, B), wr(B)),
 		dagScenario("LB_RAB_RBC", false, wr(B), rd(A, B), rd(B, C)),
 		dagScenario("RAB_RAB_LA", false, rd(A, B), rd(A, B), wr(A)),
+		dagScenario("nested-LA.LB_RAB", false, wr(A, B), rd(A, B)),
+		dagScenario("nested-LA.LB_RAB_LB", false, wr(A, B), rd(A, B), wr(B)),
+		dagScenario("nested-LA.LC_RAB_RBC", false, wr(A, C), rd(A, B), rd(B, C)),
+		dagScenario("nested-LA.LB_LB.LC_RAC", true, wr(A, B), wr(B, C), rd(A, C)),
 		dagScenario("LA_LB_RAB_RBC", true, wr(A), wr(B), rd(A, B), rd(B, C)),
 		dagScenario("LA_LB_LC_RABC", true, wr(A), wr(B), wr(C), rd(A, B, C)),
 		dagScenario("LA_LA_RA_RA", true, wr(A), wr(A), rd(A), rd(A)),
